@@ -1,10 +1,12 @@
-from ioshared import Q, A3
+from ioshared import Q, A3, double_format
 
 META = {
     'bounds': 'one symbolic key set of tiny dimensions (all key-switching and bootstrapping rows, both secret keys and all noise levels symbolic); both '
               'transports. Asserted: the cloud export is a strict prefix of the secret export; 5 text sections and exactly the byte count given by the '
               'parameter formula, secret export = that + the two key sections; no fwrite source range of the cloud export intersects the LWE key '
-              'storage; non-interference (both secrets replaced by other arbitrary values, identical cloud bytes); the cloud stream imports cleanly alone.',
+              'storage; non-interference (both secrets replaced by other arbitrary values, identical cloud bytes); the cloud stream imports cleanly alone. '
+              'h_export_api: the EXPORTed FILE*/std::stream functions, called in the sequence secret key set, cloud key set, parameter set, LWE key, cloud key set again, '
+              'produce exactly the bytes of the generic-stream level each time (no state carried between exports) and the exported importers read them back.',
     'outside': 'A3; "in any of the encodings the library uses": the library has one binary encoding per section, the check is on source address ranges '
                'and on non-interference rather than on substring search; dimensions.',
     'assumptions': ['A1', 'A2', A3],
@@ -15,5 +17,8 @@ def queries(tier, seed):
     out = []
     for cxx in (1, 0):
         out.append(Q('C17.h_cloud_public.%s' % ('cxx' if cxx else 'cfile'), 'h_cloud_public', {'CXX': cxx}, validate=(cxx == 1)))
+    for cxx in (1, 0):
+        out.append(Q('C17.h_export_api.%s' % ('cxx' if cxx else 'cfile'), 'h_export_api', {'CXX': cxx}, validate=True, mdefs=dict(double_format()[1], IO_CAP=1024), unwind=1030))
+    out.append(Q('C17.canary.h_export_api', 'h_export_api', {'CXX': 0, 'CANARY': 1}, expect='fail', witness=False, mdefs=dict(double_format()[1], IO_CAP=1024), unwind=1030))
     out.append(Q('C17.canary.h_cloud_public', 'h_cloud_public', {'CXX': 1, 'CANARY': 1}, expect='fail', witness=False))
     return out
